@@ -56,6 +56,11 @@ def list_set(st: State, r, k, v):
 def _shifted(st: State, old, off):
     """fresh array a with a[j] == old[j + off] for all j"""
     new = st.fresh("shift", ARR_IV)
+    if type(st).qf_mode:
+        # bounded, quantifier-free runs: the shift is stated for the first indices only (lists are short there)
+        for k in range(8):
+            st.assume(z3.Select(new, k) == z3.Select(old, z3.IntVal(k) + off))
+        return new
     j = z3.Int(st.fresh_name("sj"))
     st.assume(z3.ForAll([j], z3.Select(new, j) == z3.Select(old, j + off), patterns=[z3.Select(new, j)]))
     return new
